@@ -3,6 +3,7 @@ package php
 import (
 	"fmt"
 	"path/filepath"
+	"sort"
 
 	"github.com/grafana/codejen"
 	"github.com/grafana/cog/internal/ast"
@@ -63,8 +64,16 @@ func (jenny *Factory) Generate(context languages.Context) (codejen.Files, error)
 		}
 	}
 
+	// templates can declare API reference entries: the packages are rendered in a fixed order
+	packages := make([]string, 0, len(factoryByPackage))
+	for pkg := range factoryByPackage {
+		packages = append(packages, pkg)
+	}
+	sort.Strings(packages)
+
 	var files []codejen.File
-	for pkg, factories := range factoryByPackage {
+	for _, pkg := range packages {
+		factories := factoryByPackage[pkg]
 		factoriesClassName := jenny.config.builderFactoryClassForPackage(pkg)
 
 		output, err := jenny.generateFactories(context, pkg, factoriesClassName, factories)
